@@ -27,8 +27,10 @@ def sizes(tier, rng):
     if tier == "quick":
         # 48: the block algorithms halve the matrix, so the NESTED (16,32] size classes of the triangular-inverse dispatchers are only
         # reached from n >= 40 (found by a seeded defect in ut_inverse_dispatcher that n <= 33 cannot see)
-        return list(range(1, 11)) + sorted([rng.choice([16, 17, 32]), 33]) + [48]
-    return list(range(1, 21)) + [31, 32, 33, 40, 48]
+        # 40..43 / 56..59: leading blocks of 20 / 28 rows, i.e. a masked column remainder of >= 2 lanes in the triangular products of the
+        # block LU under AVX2 (float) and AVX-512 (double) -- a seeded defect in that kernel was invisible at 33 and 48
+        return list(range(1, 11)) + sorted([rng.choice([16, 17, 32]), 33]) + [rng.choice([41, 42, 43]), 48]
+    return list(range(1, 21)) + [31, 32, 33, 40, 43, 48, 57]
 
 
 def mk(t, n, lut, pf, arg):
